@@ -62,6 +62,37 @@ def script(rng, kinds, n):
     return {"members": members, "steps": steps, "both": True, "settle": 30}
 
 
+def script_jitter(rng, kinds):
+    """The jitter buffer interceptor returns EARLIER packets: playout starts after 50 packets; then a packet is missing at the
+    playout head (reads fail while later packets keep arriving and are buffered), the missing packet arrives late and
+    playout resumes - everything returned afterwards was buffered across many reads of the application's buffer."""
+    members = [{"k": k, "o": {"text": rng.choice([0, 1])}} for k in kinds]
+    steps = [{"a": "bindw"}, {"a": "bindr"}, {"a": "bindm", "s": 2, "nack": True, "twcc": 0, "pli": False}]
+    r, ident = rng.choice([600, 65500]), 0
+
+    def read(num):
+        nonlocal ident
+        ident += 1
+        steps.append({"a": "rrtp", "s": 2, "w": num % 65536, "id": ident, "len": rng.choice([1, 3, 50, 900]),
+                      "shape": rng.choice([0, 3, 5]), "tw": -1, "fail": False})
+    for _ in range(rng.choice([50, 52, 55])):
+        r += 1
+        read(r)
+    for _ in range(rng.choice([1, 2])):            # stalls
+        r += 1
+        missing = r
+        # the playout head is about 50 packets behind the newest one: it reaches the gap after ~50 more reads and stalls there
+        for _ in range(50 + rng.choice([3, 8, 20])):
+            r += 1
+            read(r)
+        read(missing)
+        for _ in range(rng.choice([30, 70])):       # plays out what was buffered during the stall
+            r += 1
+            read(r)
+    steps += [{"a": "wait", "ms": 5}, {"a": "close"}]
+    return {"members": members, "steps": steps, "both": True, "settle": 30}
+
+
 def run_batch(ctx, scripts, tag):
     return vlib.run_batch(ctx, tag=tag, scripts=scripts, pkg_rel="", pkgname="interceptor_test",
                           files=["zz_verif_univ_test.go", "common:zz_verif_pkt_test.go.tpl"],
@@ -85,6 +116,9 @@ def run(ctx):
         for _ in range(200):
             scripts.append(script(rng, rng.sample(["nackresp", "flexfec", "pdsend", "pdrecv", "pacing", "stats", "rsend"],
                                                   rng.randrange(2, 5)), 40))
+    for kinds in (["jitter"], ["pdrecv", "jitter"], ["jitter", "stats"]):
+        for _ in range(2 if ctx.quick else 20):
+            scripts.append(script_jitter(rng, kinds))
     run_batch(ctx, scripts, "T-two-run")
     ctx.assumptions += ["emissions are collected at the transport-side writers and the dump formatter; quiescence = emission count stable for 40 ms",
                         "RTX / FEC sequence numbers are random per run and excluded from the comparison"]
